@@ -64,7 +64,11 @@ Parts of the check (see lean/LabreaModel/Hook.lean, lean/LabreaProps/C18.lean):
         step.transform(x, o) / (x) / kw      == step.evaluate(o or {})(x)       (PipelineStep, Pipeline, every
                                                                                  helper of labrea.functions)
         effect.transform(x, o)               == callback.evaluate(o or {})(x) / member effects / one LogRequest
-        node >> f, node.apply(f), .bind(g)   == Apply / Bind built directly; node.evaluate(o)'s requests are part
+        node >> f, node.apply(f), .bind(g)   == Apply / Bind built directly, and == f(node.evaluate(o)) /
+                                                g(node.evaluate(o)).evaluate(o) (`core` form: same outcome, a
+                                                substitution for node honoured alike, node.evaluate(o)'s requests
+                                                are part of the entry point's, in order) -- on every node class,
+                                                dataset classes included (DC >> f, DC.apply(f), DC.bind(g))
         step + other, pipeline + other       == Pipeline(...) built directly; iteration / .empty: no request
         node.result, ensure, unit, fingerprint, Map.values, Dataset.default / with_options / with_default_options /
         register / overload / set_dispatch / set_cache / add_effect(s) / disable_effects / enable_effects /
@@ -83,13 +87,19 @@ Parts of the check (see lean/LabreaModel/Hook.lean, lean/LabreaProps/C18.lean):
            outcome and the request sequence must be equal again (so the entry point honours a substitution
            exactly where the direct form does).
      The directed family is the same in every run; the seed rotates the option dictionaries in the quick tier.
-     KEPT OUT OF THE ORACLE (observed in every run, evidence: entry_points.known_bypasses_kept_out_of_the_oracle
-     and .observed_only):
-       dataset-class instantiation          `DC(options)` is type.__call__ (type precedes Evaluatable in the bases
-                                            of the metaclass): the body of DC.evaluate runs with no EvaluateRequest
-                                            for DC; Apply / Bind call their source as source(options), so DC >> f,
-                                            DC.apply(f), DC.bind(g) skip it too. With that one request removed
-                                            from the direct form the two forms must still agree (judged).
+     OBSERVED ONLY, BY DESIGN (evidence: entry_points.observed_only_by_design and .observed_only; there is no
+     known bypass of a routed operation: entry_points.known_bypasses_kept_out_of_the_oracle is empty):
+       dataset-class instantiation          `DC(options)` is the CONSTRUCTOR of the dataset class (type.__call__:
+                                            `type` precedes Evaluatable in the bases of the metaclass), not an
+                                            alias of DC.evaluate: it is what DC.evaluate runs once its
+                                            EvaluateRequest has been handled, so it issues the requests of
+                                            DC.evaluate(options) minus that one request for DC, and a handler
+                                            substituting DC does not apply to it. Rows DatasetClass.instantiate,
+                                            :member: with that one request removed from the direct form the two
+                                            forms must still agree (judged); the substitution for DC itself is
+                                            observed. (Until /repo e6a9737 Apply / Bind called their source as
+                                            source(options), which made DC >> f, DC.apply(f), DC.bind(g) skip the
+                                            request too: repaired, those rows are judged in full.)
 
 The implementation always runs in a subprocess of PY with PYTHONPATH=REPO (worker mode of this file); the two
 family jobs of part 5 and the job of part 6 run in their own worker processes concurrently with parts 1-4.
@@ -134,9 +144,10 @@ SPEC = PropSpec(
         "(core_request_log)",
         "user-defined classes: super().m(options) inside an override of a routed method (unbounded recursion on the "
         "unchanged package) and assignment of a method after class creation (not routed) are observed, not judged",
-        "entry points (part 6): DC(options) on a dataset class, and DC >> f / DC.apply / DC.bind, issue no EvaluateRequest "
-        "for DC on the unchanged package: observed, not judged (the rest of their request sequence is judged); request "
-        "targets that are temporary nodes are compared by class, not identity",
+        "entry points (part 6): calling a dataset class, DC(options), is its constructor and not evaluate(): by design it "
+        "issues no EvaluateRequest for DC (observed; the rest of its request sequence is judged against DC.evaluate). "
+        "DC >> f / DC.apply / DC.bind are judged like on every other node class. Request targets that are temporary "
+        "nodes are compared by class, not identity",
     ],
 )
 
@@ -2363,9 +2374,11 @@ def ep_rows():
     def isa(*K):
         return lambda S: isinstance(S["node"], K)
 
-    def row(rid, member, applies, via, direct, expect, kind="evaluates", targets=None, inner=None, anon=False):
+    def row(rid, member, applies, via, direct, expect, kind="evaluates", targets=None, inner=None, anon=False, core=None):
+        # `inner`: node.evaluate(o), whose requests must be part of the entry point's; `core`: the entry point spelled
+        # with node.evaluate(o) and plain Python only (same outcome, a substitution for node honoured alike)
         rows.append({"id": rid, "member": member, "applies": applies, "via": via, "direct": direct, "expect": expect,
-                     "kind": kind, "targets": targets, "inner": inner, "anon": anon})
+                     "kind": kind, "targets": targets, "inner": inner, "anon": anon, "core": core})
     ev = lambda S, o: S["node"].evaluate(o)      # noqa: E731
     own = lambda S: not S.get("_functions") and not S.get("_helper")      # noqa: E731
     E = lambda S: isinstance(S["node"], Ev) and own(S)      # noqa: E731
@@ -2379,21 +2392,23 @@ def ep_rows():
         "node(None) == node.evaluate({})")
     row("Evaluatable.__rshift__", "__rshift__", E, lambda S, o: (S["node"] >> ep_tag).evaluate(o),
         lambda S, o: Apply(S["node"], Value(ep_tag)).evaluate(o),
-        "(node >> f).evaluate(o) == Apply(node, Value(f)).evaluate(o); node.evaluate(o)'s requests are part of it, in order",
-        kind="constructs", inner=ev)
+        "(node >> f).evaluate(o) == Apply(node, Value(f)).evaluate(o) == f(node.evaluate(o)); node.evaluate(o)'s requests are "
+        "part of it, in order", kind="constructs", inner=ev, core=lambda S, o: ep_tag(S["node"].evaluate(o)))
     row("Evaluatable.__rshift__:step", "__rshift__", E, lambda S, o: (S["node"] >> S["_step"]).evaluate(o),
         lambda S, o: Apply(S["node"], S["_step"]).evaluate(o),
-        "(node >> step).evaluate(o) == Apply(node, step).evaluate(o) (an Evaluatable function is used as it is)",
-        kind="constructs", inner=ev)
+        "(node >> step).evaluate(o) == Apply(node, step).evaluate(o) == step.evaluate(o)(node.evaluate(o))",
+        kind="constructs", inner=ev, core=lambda S, o: S["_step"].evaluate(o)(S["node"].evaluate(o)))
     row("Evaluatable.apply", "apply", E, lambda S, o: S["node"].apply(ep_tag).evaluate(o),
-        lambda S, o: Apply(S["node"], Value(ep_tag)).evaluate(o), "node.apply(f).evaluate(o) == Apply(node, Value(f)).evaluate(o)",
-        kind="constructs", inner=ev)
+        lambda S, o: Apply(S["node"], Value(ep_tag)).evaluate(o),
+        "node.apply(f).evaluate(o) == Apply(node, Value(f)).evaluate(o) == f(node.evaluate(o))", kind="constructs", inner=ev, core=lambda S, o: ep_tag(S["node"].evaluate(o)))
     row("Evaluatable.apply:step", "apply", E, lambda S, o: S["node"].apply(S["_step"]).evaluate(o),
-        lambda S, o: Apply(S["node"], S["_step"]).evaluate(o), "node.apply(step).evaluate(o) == Apply(node, step).evaluate(o)",
-        kind="constructs", inner=ev)
+        lambda S, o: Apply(S["node"], S["_step"]).evaluate(o),
+        "node.apply(step).evaluate(o) == Apply(node, step).evaluate(o) == step.evaluate(o)(node.evaluate(o))", kind="constructs", inner=ev,
+        core=lambda S, o: S["_step"].evaluate(o)(S["node"].evaluate(o)))
     row("Evaluatable.bind", "bind", E, lambda S, o: S["node"].bind(S["_bound"]).evaluate(o),
-        lambda S, o: Bind(S["node"], S["_bound"]).evaluate(o), "node.bind(g).evaluate(o) == Bind(node, g).evaluate(o)",
-        kind="constructs", inner=ev)
+        lambda S, o: Bind(S["node"], S["_bound"]).evaluate(o),
+        "node.bind(g).evaluate(o) == Bind(node, g).evaluate(o) == g(node.evaluate(o)).evaluate(o)", kind="constructs", inner=ev,
+        core=lambda S, o: S["_bound"](S["node"].evaluate(o)).evaluate(o))
     row("Evaluatable.result", "result", E, lambda S, o: S["node"].result.evaluate(o), ev, "node.result is node",
         kind="accessor")
     row("Evaluatable.fingerprint", "fingerprint", E, lambda S, o: S["node"].fingerprint(o).decode(),
@@ -2459,7 +2474,8 @@ def ep_rows():
         "pipeline.empty issues no request", kind="no_request", targets=[])
     # ---- Map
     row("Map.values", "values", isa(Map), lambda S, o: S["node"].values.evaluate(o), lambda S, o: Apply(S["node"], Value(ep_second)).evaluate(o),
-        "map.values.evaluate(o) == Apply(map, Value(second of each)).evaluate(o)", kind="constructs", inner=ev)
+        "map.values.evaluate(o) == Apply(map, Value(second of each)).evaluate(o) == second of each of map.evaluate(o)",
+        kind="constructs", inner=ev, core=lambda S, o: ep_second(S["node"].evaluate(o)))
     # ---- Option
     OP = lambda S: type(S["node"]) is Option      # noqa: E731
     row("Option.set", "set", OP, lambda S, o: S["node"].evaluate(S["node"].set(o, "SET")),
@@ -2679,26 +2695,23 @@ def ep_extras(S):
     return S
 
 
-# rows whose entry point does NOT issue the requests of its direct form on the unchanged package: kept out of
-# the violation oracle, observed in every run and reported in the evidence (entry_points.observed_only).
-# `drop`: the requests of the direct form that the entry point is known not to issue; with them removed the
-# two forms must still agree (so that anything else the entry point stops issuing is a violation).
-EP_BYPASSES = {
-    "dataset_class_call": {
-        "what": "a dataset class is instantiated by type.__call__ (`type` is listed before Evaluatable in the bases of the metaclass), "
-                "so DC(options) runs the body of DC.evaluate without an EvaluateRequest for DC; Apply and Bind evaluate their "
-                "source as source(options), so (DC >> f)(o), DC.apply(f)(o), DC.bind(g)(o) skip it as well. DC.evaluate(options) "
-                "and DC as the argument of a dataset (`def d(x=DC)`) do issue it. A pass-through handler does not see DC, a "
-                "substituting handler for DC is ignored by these spellings.",
-        "reproducer": "@datasetclass\nclass DC:\n    a: int = Option('A', 1)\nseen = []\ndefault = runtime.Runtime().handlers[EvaluateRequest]\n"
-                      "with runtime.handle(EvaluateRequest, lambda r: (seen.append(r.evaluatable), default(r))[1]):\n"
-                      "    DC({}); (DC >> repr)({})\nassert any(e is DC for e in seen)   # fails; holds for DC.evaluate({})",
+# Rows that are observed, not judged in full. `drop`: the requests of the direct form that the entry point does
+# not issue; with them removed the two forms must still agree (so anything else it stops issuing is a violation);
+# the substitution for `target` is observed only. EP_BYPASSES: genuine bypasses of a routed operation on the
+# unchanged package (none at present); EP_BY_DESIGN: entry points that are not meant to be the routed operation.
+EP_BYPASSES = {}
+EP_BY_DESIGN = {
+    "dataset_class_constructor": {
+        "what": "calling a dataset class, DC(options), is its constructor (type.__call__: `type` is listed before Evaluatable in "
+                "the bases of the metaclass), not an alias of evaluate(): it is what DC.evaluate runs after its EvaluateRequest "
+                "has been handled. It issues the requests of DC.evaluate(options) except the EvaluateRequest for DC itself, and "
+                "a handler substituting DC does not apply to it. DC.evaluate(options), DC as the argument of a dataset and, "
+                "since /repo e6a9737, (DC >> f)(o), DC.apply(f)(o), DC.bind(g)(o) are routed.",
+        "rows": ["DatasetClass.instantiate", "DatasetClass.instantiate:member"],
     },
 }
-_EP_DC = {"drop": ["evaluate", "@node"], "target": "node", "bypass": "dataset_class_call"}
+_EP_DC = {"drop": ["evaluate", "@node"], "target": "node", "reason": "dataset_class_constructor"}
 EP_OBSERVED_ONLY = {"DatasetClass.instantiate": _EP_DC, "DatasetClass.instantiate:member": _EP_DC}
-EP_OBSERVED_ONLY.update({f"Evaluatable.{m}|_DatasetClassMeta": _EP_DC
-                         for m in ("__rshift__", "__rshift__:step", "apply", "apply:step", "bind")})
 
 
 def ep_subseq(small, big):
@@ -2886,10 +2899,10 @@ def w_entrypoints(job):
                            .replace(repr(ep_subst_fn), "a substitute function"))
                     l2c = l2
                     if obs is not None:
-                        # known bypass: observe; with the known-missing request removed the forms must still agree
+                        # observed only: with the request it does not issue removed the forms must still agree
                         l2c = [e for e in l2 if e[:2] != obs["drop"]]
                         okey = r["id"] if r["id"] in EP_OBSERVED_ONLY else f"{r['id']}|{cls.__name__}"
-                        seen = observed.setdefault(okey, {"bypass": obs["bypass"], "pass_through_cases": 0,
+                        seen = observed.setdefault(okey, {"reason": obs["reason"], "pass_through_cases": 0,
                                                           "requests_for_the_node_by_direct_form": 0, "requests_for_the_node_by_entry_point": 0,
                                                           "substitution_cases": 0, "substitution_honoured_by_direct_form": 0,
                                                           "substitution_honoured_by_entry_point": 0, "sample": None})
@@ -2908,7 +2921,7 @@ def w_entrypoints(job):
                             else:
                                 seen["substitution_honoured_by_direct_form"] += 1 if ep_exec(r["inner"], build, o, mode)[2] else 0
                             seen["substitution_honoured_by_entry_point"] += 1 if h1 else 0
-                            continue        # the substitution for the bypassed node itself: observed, not judged
+                            continue        # the substitution for the node itself: observed, not judged
                     prob = None
                     if mode is not None and r1 != r2:
                         prob = (f"{what}, {how}: it returns {json.dumps(r1)[:150]} but its direct form ({r['expect']}) "
@@ -2928,6 +2941,16 @@ def w_entrypoints(job):
                         if ri[0] == "ok" and not ep_subseq(li, l1):
                             prob = (f"{what}, {how}: the {len(li)} request(s) of node.evaluate(o) {ep_show(li, 0)} are not part "
                                     f"(in order) of the {len(l1)} request(s) it issues")
+                    if prob is None and r["core"] is not None and obs is None:
+                        rc, lc, hc = ep_exec(r["core"], build, o, mode, r["anon"])
+                        st["core_cases"] = st.get("core_cases", 0) + 1
+                        if rc[0] == "ok" and r1 != rc:
+                            prob = (f"{what}, {how}: it returns {json.dumps(r1)[:150]} but the same thing spelled with "
+                                    f"node.evaluate(o) ({r['expect']}) returns {json.dumps(rc)[:150]}"
+                                    + (f" (the handler answered {h1} vs {hc} time(s))" if mode else ""))
+                        elif mode == "node" and bool(hc) != bool(h1):
+                            prob = (f"{what}, {how}: the handler was consulted {h1} time(s) for the node, but {hc} time(s) when the "
+                                    f"same thing is spelled with node.evaluate(o) ({r['expect']})")
                     if prob:
                         problems.append({"what": prob, "case": dict(case, mode=mode or "pass-through")})
     table = []
@@ -2971,7 +2994,7 @@ def w_entrypoints(job):
     out = {"table": table, "cases": sum(t["cases"] for t in table), "subst_cases": sum(t["subst_cases"] for t in table),
            "requests_compared": sum(t["requests"] for t in table), "problems": problems, "members": members, "uncovered_members": uncovered,
            "abstract_classes": abstract, "inherited_from": {k: sorted(v) for k, v in owners.items()}, "observed_only": observed,
-           "known_bypasses": EP_BYPASSES, "nontrivial_cases": nontrivial,
+           "known_bypasses": EP_BYPASSES, "by_design": EP_BY_DESIGN, "nontrivial_cases": nontrivial,
            "package_callables": pkg, "functions_untabled": f_untabled, "functions_never_ok": sorted(never_ok),
            "subjects": len(probes), "classes_with_subject": sorted({type(P["node"]).__qualname__ for P in probes.values()}),
            "rows": rowids}
@@ -3625,7 +3648,8 @@ def part6(ctx, future):
         "members_inherited_from": res["inherited_from"], "abstract_classes_without_subject": res["abstract_classes"],
         "package_callables": res["package_callables"], "functions_helpers_without_arguments_in_the_table": res["functions_untabled"],
         "functions_helpers_never_evaluated_successfully": res["functions_never_ok"],
-        "known_bypasses_kept_out_of_the_oracle": res["known_bypasses"], "observed_only": res["observed_only"],
+        "known_bypasses_kept_out_of_the_oracle": res["known_bypasses"], "observed_only_by_design": res["by_design"],
+        "observed_only": res["observed_only"],
     }}
     return findings, cov, res
 
